@@ -34,6 +34,15 @@ func Root() string {
 	return "/verif"
 }
 
+// Out returns the directory that receives evidence/, logs/ and replays/ (VERIF_OUT,
+// default Root()).
+func Out() string {
+	if v := os.Getenv("VERIF_OUT"); v != "" {
+		return v
+	}
+	return Root()
+}
+
 type finding struct {
 	Property  string `json:"property"`
 	Signature string `json:"signature"`
@@ -108,8 +117,8 @@ func Start(t testing.TB, prop string) *Run {
 			}
 		}
 	}
-	_ = os.MkdirAll(filepath.Join(Root(), "evidence"), 0o755)
-	_ = os.MkdirAll(filepath.Join(Root(), "logs"), 0o755)
+	_ = os.MkdirAll(filepath.Join(Out(), "evidence"), 0o755)
+	_ = os.MkdirAll(filepath.Join(Out(), "logs"), 0o755)
 	return r
 }
 
@@ -219,7 +228,7 @@ func (r *Run) LogCase(v any) {
 	r.mu.Lock()
 	defer r.mu.Unlock()
 	if r.caseFile == nil {
-		f, err := os.Create(filepath.Join(Root(), "logs", r.Prop+".lastcase"))
+		f, err := os.Create(filepath.Join(Out(), "logs", r.Prop+".lastcase"))
 		if err != nil {
 			return
 		}
@@ -266,7 +275,7 @@ func (r *Run) Violation(signature, what string, witness any) bool {
 		return true
 	}
 	h := sha1.Sum([]byte(signature))
-	dir := filepath.Join(Root(), "replays", r.Prop)
+	dir := filepath.Join(Out(), "replays", r.Prop)
 	_ = os.MkdirAll(dir, 0o755)
 	path := filepath.Join(dir, fmt.Sprintf("%s-%d.json", hex.EncodeToString(h[:5]), n))
 	b, err := json.MarshalIndent(map[string]any{
@@ -362,7 +371,7 @@ func (r *Run) write(final bool) {
 			return
 		}
 	}
-	path := filepath.Join(Root(), "evidence", r.Prop+".json")
+	path := filepath.Join(Out(), "evidence", r.Prop+".json")
 	tmp := path + ".tmp"
 	if os.WriteFile(tmp, b, 0o644) == nil {
 		_ = os.Rename(tmp, path)
